@@ -281,9 +281,11 @@ def oracle_pq(ops, obs):
 # ---------------------------------------------------------------------- shrinking
 def shrink_ops(case_of_ops, ops, fails):
     """Greedy delta debugging on an op list; fails(ops)->bool."""
+    import time
+    t_end = time.time() + 45
     cur = list(ops)
     n = 2
-    while len(cur) >= 2:
+    while len(cur) >= 2 and time.time() < t_end:
         chunk = max(1, len(cur) // n)
         reduced = False
         for i in range(0, len(cur), chunk):
@@ -394,6 +396,9 @@ def run(ctx):
     #    leave the obligation broken -> finish() reports no-failing-input-found
     reported = set()
     for which, idx, msg in fails[:200]:
+        if len(ctx.violations) >= 3:
+            ctx.notes.append("%d failing cases in total; only the first 3 failure classes were shrunk and reported" % len(fails))
+            break
         if which == "uf":
             case = ufs[idx]
             key = classify_uf(case, msg)
